@@ -36,6 +36,17 @@ INSTANCES = {
 
 
 def make_instance(name, params=None):
+    if name.startswith("gen:"):
+        # "gen:<seed>:<number of workers>": a generated suite (random setup DAG with removable states, vf/parse/gensuite.py), parsed on demand
+        from ..parse import gensuite as G, props as PP
+        import random as _r
+        _, seed, nw = name.split(":")
+        suite = G.write(os.path.join(C.BUILD, "gensuites", "s%s" % seed), _r.Random(int(seed)), subset_producers=True, removable=True)
+        p = {"test_timeout": 100}
+        p.update(params or {})
+        inst = P.Instance("gen%sx%s" % (seed, nw), PP.gen_restr(suite), " ".join("net%d" % (i + 1) for i in range(int(nw))), p, lazy=True, suite=suite)
+        inst.declared = suite.text
+        return inst
     restr, nets, lazy = INSTANCES[name][:3]
     vm_strs = INSTANCES[name][3] if len(INSTANCES[name]) > 3 else None
     p = {"test_timeout": 100}
@@ -171,7 +182,7 @@ class Campaign:
                         raise C.MachineryError("binding self-test: corrupted trace (%s) was accepted" % c[1])
         return good, traces, fails
 
-    def explore(self, inst_name, pools_kind="shared", maxbounce=1, invariants=None, maxtries=1, max_present=None, timeout=3000, expect_violation=False, statuses=("PASS", "FAIL")):
+    def explore(self, inst_name, pools_kind="shared", maxbounce=1, invariants=None, maxtries=1, max_present=None, timeout=3000, expect_violation=False, statuses=("PASS", "FAIL"), ownunexplored=None):
         """exhaustive exploration of the algorithm model on an instance parsed by the current tree"""
         inst = make_instance(inst_name).prepare()
         mc = A.model_constants(inst)
@@ -185,10 +196,11 @@ class Campaign:
             pools = [dict(p, shared=set(p.get("shared", set())) | inst_states) for p in A.shared_pools({"states": [s for s in mc["states"] if s not in inst_states]}, max_present)]
         else:
             pools = A.residue_pools(mc, 1)
-        r, _ = A.explore(os.path.join(self.work, "explore_" + inst_name + "_" + pools_kind), inst, "MC_explore", pools, maxbounce=maxbounce,
-                         maxtries=maxtries, invariants=invariants or A.SAFETY, timeout=timeout, statuses=statuses)
+        r, _ = A.explore(os.path.join(self.work, "explore_" + inst_name + "_" + pools_kind + ("_oldguard" if ownunexplored is False else "")), inst, "MC_explore", pools, maxbounce=maxbounce,
+                         maxtries=maxtries, invariants=invariants or A.SAFETY, timeout=timeout, statuses=statuses, ownunexplored=ownunexplored)
         rec = {"instance": inst_name, "workers": inst.nets, "lazy": inst.lazy, "test_classes": len(mc["tests"]), "initial_pools": len(pools),
                "pools": pools_kind, "max_backoffs_per_worker": maxbounce, "max_tries": maxtries, "statuses": list(statuses),
+               "cleanup_guard": "as coded" if ownunexplored is None else ("own unexplored tests too" if ownunexplored else "globally unexplored tests only (before fix ce5db6a)"),
                "invariants": list(invariants or A.SAFETY), "ok": bool(r.ok), "violated": r.violated, "distinct_states": r.distinct,
                "states_generated": r.generated, "wall_s": round(r.wall, 1), "timeout": "TIMEOUT" in r.out}
         if not r.ok and not r.violated:
@@ -257,7 +269,7 @@ def generic_run(pid, tier, seed, plan, make_jobs, signature, describe, settings_
             if not rec["violated"]:
                 raise C.MachineryError("vacuity guard: the model did not reproduce the known finding on %s" % ex["inst_name"])
             rec["ok"] = True
-            rec["guard"] = "known finding reproduced by the model (expected)"
+            rec["guard"] = "known finding / pre-fix design reproduced by the model (expected)"
     if explore_plan:
         camp.replay_model("tut1x2e", 6 if tier == "quick" else 40, seed=seed + 1)
         camp.replay_model("tut13x2e", 4 if tier == "quick" else 40, seed=seed + 2)
@@ -315,6 +327,10 @@ def explore_plan(tier, inv, retries=False, removable=False, residue=False, lost=
         plan.append(dict(inst_name="tut1x2", pools_kind="shared", maxbounce=1, invariants=STRUCT + inv, statuses=("PASS", "LOST")))
     if removable:
         plan.append(dict(inst_name="guix2", pools_kind="installed", maxbounce=0, invariants=STRUCT + inv, statuses=("PASS",), max_present=1 if quick else None))
+        # producer of a removable state and its dependant both selected: lazy expansion of the dependant after the producer ran
+        plan.append(dict(inst_name="guigetx2", pools_kind="installed", maxbounce=0 if quick else 1, invariants=STRUCT + inv + ["Completed"], statuses=("PASS",), max_present=0))
+        # vacuity/fidelity guard: the design before fix ce5db6a must violate the invariant in the model
+        plan.append(dict(inst_name="guigetx2", pools_kind="installed", maxbounce=0, invariants=inv, statuses=("PASS",), max_present=0, ownunexplored=False, expect_violation=True))
     if not quick:
         plan += [dict(inst_name="tut13x2", pools_kind="shared", maxbounce=0, max_present=1, invariants=STRUCT + inv, timeout=5000),
                  dict(inst_name="tut1x1", pools_kind="shared", maxbounce=1, invariants=STRUCT + inv),
